@@ -229,11 +229,35 @@ class Interp(object):
         b = self.block(s.orelse, self.d.assume(s.test, st, False))
         return self.join(a, b)
 
+    PEEL = True     # analyse the first pass of every loop from the entry state alone (exact: loop = first pass + rest)
+
     def do_While(self, s, st):
         lf = _LoopFrame()
         head = st
         exit_st = None
         const_true = isinstance(s.test, ast.Constant) and bool(s.test.value)
+        entry_exit = None
+        if self.PEEL:
+            # what is true only before the first pass (initial sentinels, "first time" flags) is not mixed into the
+            # state of later passes
+            self.loops.append(lf)
+            try:
+                kinds = self.d.may_raise_expr(s.test, st)
+                if kinds:
+                    self.raise_from(st, kinds)
+                h2 = self.d.exec_test(s.test, st)
+                body_in = self.d.assume(s.test, h2, True)
+                out = self.block(s.body, body_in) if body_in is not None else None
+            finally:
+                self.loops.pop()
+            if not const_true:
+                entry_exit = self.d.assume(s.test, self.d.exec_test(s.test, st), False)
+            head = self.join(out, lf.continues)
+            if head is None:
+                ex = entry_exit
+                if s.orelse and ex is not None:
+                    ex = self.block(s.orelse, ex)
+                return self.join(ex, lf.breaks)
         for _ in range(self.MAX_ITER):
             self.loops.append(lf)
             try:
@@ -253,7 +277,8 @@ class Interp(object):
             head = self.d.widen(head)
         if not const_true:
             exit_st = self.d.assume(s.test, self.d.exec_test(s.test, head), False)
-        if s.orelse:
+        exit_st = self.join(exit_st, entry_exit)
+        if s.orelse and exit_st is not None:
             exit_st = self.block(s.orelse, exit_st)
         return self.join(exit_st, lf.breaks)
 
@@ -267,6 +292,25 @@ class Interp(object):
         lf = _LoopFrame()
         head = st
         iterated = None
+        if self.PEEL:
+            self.loops.append(lf)
+            try:
+                body_in = self.d.bind_for(s, st)
+                if body_in is not None:
+                    bk = self.d.may_raise_for(s, st)
+                    if bk:
+                        self.raise_from(st, bk)
+                out = self.block(s.body, body_in)
+            finally:
+                self.loops.pop()
+            back = self.join(out, lf.continues)
+            iterated = back
+            if back is None:
+                exit_st = self.d.exit_for(s, st, iterated, st)
+                if s.orelse:
+                    exit_st = self.block(s.orelse, exit_st)
+                return self.join(exit_st, lf.breaks)
+            head = back
         for _ in range(self.MAX_ITER):
             self.loops.append(lf)
             try:
@@ -286,6 +330,8 @@ class Interp(object):
             head = new_head
         else:
             head = self.d.widen(head)
+        if self.PEEL:
+            head = self.join(head, st)       # the loop is also left without any pass
         exit_st = self.d.exit_for(s, st, iterated, head)
         if s.orelse:
             exit_st = self.block(s.orelse, exit_st)
